@@ -301,6 +301,10 @@ def run(ctx):
     clr = rs.calls('VecDeque::clear')
     ctx.ob(len(clr) == 1 and show(clr[0].arg(0)) == 'self.steps', 'Encoder::reset clears pending steps first', 'reset-clear', loc=rs.loc())
 
+    # ---------------------------------------------------------------- R-C02-8/9 length arithmetic
+    from . import c02_len
+    c02_len.run(ctx, w5, w3)
+
 
 def fields_read(ctx, view, depth=1, root='packet', _seen=None):
     """Field names of `<root>.<field>` (or any var when root is None) mentioned in a body and
